@@ -50,6 +50,8 @@ type Engine struct {
 	redirMu  sync.Mutex
 	redirC   map[string]*ssa.Function
 	fnHash   map[string]string
+
+	workersPerHarness int
 }
 
 // defaultRedirects send library entry points to implementations in the harness
@@ -252,12 +254,14 @@ type HarnessResult struct {
 	Problems   []string // inconclusive reasons
 	Shared     map[string]string
 	Funcs      map[string]bool
-	exec       *Exec
+	InitSkips  map[string]bool
+	Escalated  int
+	Asserts    int
 }
 
 func (g *Engine) runHarness(h *Harness, solverKind string, timeoutMs int) (res *HarnessResult) {
 	t0 := time.Now()
-	res = &HarnessResult{H: h, Status: map[string]int{}, Reached: map[string]int{}, Funcs: map[string]bool{}}
+	res = &HarnessResult{H: h, Status: map[string]int{}, Reached: map[string]int{}, Funcs: map[string]bool{}, InitSkips: map[string]bool{}}
 	defer func() {
 		res.Wall = time.Since(t0)
 		if r := recover(); r != nil {
@@ -293,90 +297,214 @@ func (g *Engine) runHarness(h *Harness, solverKind string, timeoutMs int) (res *
 		res.Problems = append(res.Problems, "harness function not found: "+h.Func)
 		return
 	}
-	tb := NewTermBank()
-	sol, err := NewSolver(solverKind, tb, timeoutMs)
-	if err != nil {
-		res.Problems = append(res.Problems, "solver: "+err.Error())
-		return
+	// The decision tree is explored by a pool of workers.  A work item is a
+	// decision prefix; a worker explores the subtree below it depth-first and
+	// donates its shallowest pending alternative whenever another worker is idle.
+	var mu sync.Mutex
+	cond := sync.NewCond(&mu)
+	queue := [][]decision{{}}
+	idle, nPaths, done := 0, 0, false
+	nWorkers := g.workersPerHarness
+	if nWorkers < 1 {
+		nWorkers = 1
 	}
-	defer sol.Close()
-	if lf := os.Getenv("GOSYM_SMTLOG"); lf != "" {
-		f, _ := os.Create(lf + "." + h.Name + ".smt2")
-		sol.logw = f
-		defer f.Close()
-	}
-	e := &Exec{prog: g.prog, eng: g, tb: tb, sol: sol, h: h,
-		globals: map[*ssa.Global]*Obj{}, initSnap: map[*Obj]Value{}, initDone: map[*ssa.Package]bool{},
-		sharedWrites: map[string]string{}, allReached: map[string]int{}, vioSeen: map[string]bool{},
-		atomicAccess: map[*Obj]bool{}, strictInit: map[*ssa.Package]bool{}, funcsSeen: map[string]bool{}, strCache: map[string]*Term{}, guessCache: map[string]*Term{}, known: map[int]bool{}, varSeq: map[string]int{}}
-	res.exec = e
-	e.workAlloc, e.workCopy = tb.BVu(0, 64), tb.BVu(0, 64)
-	// package initialisation of the package under test (concrete)
-	e.inInit = true
-	for path, sp := range g.pkgs {
-		if strings.HasPrefix(path, "github.com/artela-network/artela-evm/") {
-			e.strictInit[sp] = true
-		}
-	}
-	func() {
-		defer func() {
-			if r := recover(); r != nil {
-				switch x := r.(type) {
-				case *unsupportedErr:
-					res.Problems = append(res.Problems, "unsupported during init: "+x.msg+" at "+e.curSite())
-				case *goPanic:
-					res.Problems = append(res.Problems, "panic during init: "+x.msg+" at "+x.site)
-				default:
-					panic(r)
-				}
+	vioSeen := map[string]bool{}
+	take := func() ([]decision, bool) {
+		mu.Lock()
+		defer mu.Unlock()
+		idle++
+		for len(queue) == 0 && !done {
+			if idle == nWorkers {
+				done = true
+				cond.Broadcast()
+				break
 			}
-		}()
-		g.ensureInit(e, p)
-	}()
-	e.inInit = false
-	e.snapshotInit()
-	if len(res.Problems) > 0 {
-		return
-	}
-	var args []Value
-	for i, a := range h.Args {
-		w := typeWidth(fn.Params[i].Type())
-		args = append(args, tb.BVu(a, w))
-	}
-	for n := 0; ; n++ {
-		if n >= h.MaxPaths {
-			res.Problems = append(res.Problems, fmt.Sprintf("path cap %d reached", h.MaxPaths))
-			break
+			cond.Wait()
 		}
-		pr := e.runPath(fn, args)
-		res.Paths = append(res.Paths, pr)
-		res.Status[pr.Status]++
-		switch pr.Status {
-		case "ok", "panic", "infeasible", "assumed-unwind", "assumed-oob", "stop":
-		default:
-			if pr.Status == "oob" || pr.Status == "unwind" {
-				if h.OnLimit[pr.Status] == "violation" {
+		if done && len(queue) == 0 {
+			return nil, false
+		}
+		idle--
+		it := queue[len(queue)-1]
+		queue = queue[:len(queue)-1]
+		return it, true
+	}
+	worker := func(wid int) {
+		tb := NewTermBank()
+		sol, err := NewSolver(solverKind, tb, timeoutMs)
+		if err != nil {
+			mu.Lock()
+			res.Problems = append(res.Problems, "solver: "+err.Error())
+			mu.Unlock()
+			return
+		}
+		defer sol.Close()
+		if lf := os.Getenv("GOSYM_SMTLOG"); lf != "" && wid == 0 {
+			f, _ := os.Create(lf + "." + h.Name + ".smt2")
+			sol.logw = f
+			defer f.Close()
+		}
+		e := &Exec{prog: g.prog, eng: g, tb: tb, sol: sol, h: h,
+			globals: map[*ssa.Global]*Obj{}, initSnap: map[*Obj]Value{}, initDone: map[*ssa.Package]bool{},
+			sharedWrites: map[string]string{}, allReached: map[string]int{}, vioSeen: map[string]bool{},
+			atomicAccess: map[*Obj]bool{}, strictInit: map[*ssa.Package]bool{}, funcsSeen: map[string]bool{}, strCache: map[string]*Term{}, known: map[int]bool{}, varSeq: map[string]int{}}
+		e.workAlloc, e.workCopy = tb.BVu(0, 64), tb.BVu(0, 64)
+		if wid > 0 {
+			e.nWitness = 1 << 20 // witnesses are taken by the first worker only
+		}
+		// package initialisation of the package under test (concrete)
+		e.inInit = true
+		for path, sp := range g.pkgs {
+			if strings.HasPrefix(path, "github.com/artela-network/artela-evm/") {
+				e.strictInit[sp] = true
+			}
+		}
+		initOK := true
+		func() {
+			defer func() {
+				if r := recover(); r != nil {
+					initOK = false
+					mu.Lock()
+					defer mu.Unlock()
+					switch x := r.(type) {
+					case *unsupportedErr:
+						res.Problems = append(res.Problems, "unsupported during init: "+x.msg+" at "+e.curSite())
+					case *goPanic:
+						res.Problems = append(res.Problems, "panic during init: "+x.msg+" at "+x.site)
+					default:
+						panic(r)
+					}
+				}
+			}()
+			g.ensureInit(e, p)
+		}()
+		e.inInit = false
+		e.snapshotInit()
+		var args []Value
+		for i, a := range h.Args {
+			w := typeWidth(fn.Params[i].Type())
+			args = append(args, tb.BVu(a, w))
+		}
+		var local []PathResult
+		for initOK {
+			item, ok := take()
+			if !ok {
+				break
+			}
+			e.decisions = item
+			e.floor = len(item)
+			for {
+				mu.Lock()
+				nPaths++
+				over := nPaths > h.MaxPaths
+				mu.Unlock()
+				if over {
+					mu.Lock()
+					res.Problems = append(res.Problems, fmt.Sprintf("path cap %d reached", h.MaxPaths))
+					done = true
+					queue = nil
+					cond.Broadcast()
+					mu.Unlock()
+					break
+				}
+				func() {
+					defer func() {
+						if r := recover(); r != nil {
+							if u, ok := r.(*unsupportedErr); ok {
+								local = append(local, PathResult{Status: "unsupported", Msg: u.msg})
+								return
+							}
+							panic(r)
+						}
+					}()
+					pr := e.runPath(fn, args)
+					local = append(local, pr)
+					if os.Getenv("GOSYM_TRACE") != "" {
+						fmt.Fprintf(os.Stderr, "[%s/%d] path: %s %s (%d steps, %d decisions)\n", h.Name, wid, pr.Status, pr.Msg, pr.Steps, len(e.decisions))
+					}
+				}()
+				// feed idle workers
+				mu.Lock()
+				for idle > len(queue) {
+					d := e.donate()
+					if d == nil {
+						break
+					}
+					queue = append(queue, d)
+					cond.Signal()
+				}
+				mu.Unlock()
+				if !e.nextPrefix() {
 					break
 				}
 			}
-			res.Problems = append(res.Problems, pr.Status+": "+pr.Msg)
 		}
-		if os.Getenv("GOSYM_TRACE") != "" {
-			fmt.Fprintf(os.Stderr, "[%s] path %d: %s %s (%d steps, %d decisions)\n", h.Name, n, pr.Status, pr.Msg, pr.Steps, len(e.decisions))
+		// merge
+		mu.Lock()
+		defer mu.Unlock()
+		for _, pr := range local {
+			res.Paths = append(res.Paths, pr)
+			res.Status[pr.Status]++
+			switch pr.Status {
+			case "ok", "panic", "infeasible", "assumed-unwind", "assumed-oob", "stop":
+			default:
+				if (pr.Status == "oob" || pr.Status == "unwind") && h.OnLimit[pr.Status] == "violation" {
+					break
+				}
+				res.Problems = append(res.Problems, pr.Status+": "+pr.Msg)
+			}
 		}
-		if !e.nextPrefix() {
-			break
+		for _, v := range e.violations {
+			key := v.Kind + "|" + v.Tag + "|" + v.Site + "|" + v.Known
+			if v.Kind != "witness" && vioSeen[key] {
+				continue
+			}
+			vioSeen[key] = true
+			res.Violations = append(res.Violations, v)
+		}
+		for t, n := range e.allReached {
+			res.Reached[t] += n
+		}
+		res.Queries[0] += sol.nUnsat
+		res.Queries[1] += sol.nSat
+		res.Queries[2] += sol.nUnknown
+		res.Escalated += sol.nEscalated
+		res.SolveTime += sol.solveTime
+		res.Instr += e.nInstr
+		res.Asserts += e.nAsserts
+		if res.Shared == nil {
+			res.Shared = map[string]string{}
+		}
+		for k, v := range e.sharedWrites {
+			res.Shared[k] = v
+		}
+		for f := range e.funcsSeen {
+			res.Funcs[f] = true
+		}
+		for _, s := range e.initSkips {
+			res.InitSkips[s] = true
+		}
+		for _, er := range sol.errors {
+			res.Problems = append(res.Problems, "solver error: "+er)
 		}
 	}
-	res.Violations = e.violations
-	res.Reached = e.allReached
-	res.Queries = [3]int{sol.nUnsat, sol.nSat, sol.nUnknown}
-	res.SolveTime = sol.solveTime
-	res.Instr = e.nInstr
-	res.Shared = e.sharedWrites
-	for _, er := range sol.errors {
-		res.Problems = append(res.Problems, "solver error: "+er)
+	var wg sync.WaitGroup
+	for w := 0; w < nWorkers; w++ {
+		wg.Add(1)
+		go func(w int) {
+			defer wg.Done()
+			worker(w)
+			// a worker that leaves early (init failure) must not block the others
+			mu.Lock()
+			nWorkers--
+			if idle >= nWorkers {
+				done = true
+			}
+			cond.Broadcast()
+			mu.Unlock()
+		}(w)
 	}
+	wg.Wait()
 	for _, t := range h.Reach {
 		if res.Reached[t] == 0 {
 			res.Problems = append(res.Problems, "VACUOUS: reach tag never reached: "+t)
